@@ -696,7 +696,7 @@ func c19Roots(c *Ctx, env *provEnv) {
 		})
 	}
 	if nroot < 5 {
-		c.Bad("R19.3", "os.Root usage", 0, fmt.Sprintf("only %d os.Root method calls found: static files / recordings no longer go through os.Root", nroot))
+		c.Bad("R19.3", "os.Root usage", 0, "%s", fmt.Sprintf("only %d os.Root method calls found: static files / recordings no longer go through os.Root", nroot))
 	}
 	// recordings delete: refuses separators
 	if hg := p.Func("webserver", "", "handleGroupAction"); hg != nil {
